@@ -26,7 +26,7 @@ type FakeProxy struct {
 	Puts   []string // keys handed to Put, in order
 	Gets   []string
 	Conts  []string
-	Open   int // readers handed out by Get and not yet closed
+	Open   int           // readers handed out by Get and not yet closed
 	Delay  time.Duration // latency of Contains (a real backend is never instantaneous)
 }
 
